@@ -9,13 +9,14 @@ Every model records what it assumes in engine.assumptions (reported as trusted_b
 from __future__ import annotations
 
 import ast
+from fractions import Fraction
 
 import numpy as np
 import z3
 
 from . import models, narr, npmodels
 from .engine import ProgExc, Unsupported
-from .values import NArr, PList, SArr, Sym, fresh, fresh_name, kind_of, to_z3, zint
+from .values import NArr, PList, SArr, Sym, fresh, fresh_name, kind_of, next_uid, to_z3, zint
 
 
 def used(eng, name):
@@ -85,6 +86,10 @@ def counted(eng):
 def _count_nonzero(eng, args, kwargs):
     a = args[0]
     axis = kwargs.get("axis", args[1] if len(args) > 1 else None)
+    if isinstance(a, RowFamily):
+        if axis != 1:
+            raise Unsupported("np.count_nonzero of a symbolic-length list of rows with axis != 1")
+        return _count_rows(eng, a)
     if isinstance(a, PList) and a.items is not None and a.items and all(isinstance(x, SArr) for x in a.items):
         # a list of equally long 1-D arrays is a 2-D array (rows); axis=1 counts along each row
         used(eng, "np.count_nonzero(rows, axis=1) = per-row count")
@@ -106,6 +111,61 @@ def _count_nonzero(eng, args, kwargs):
         counted(eng).append((m, r))
         return r
     return npmodels._np_count_nonzero(eng, [a], {})
+
+
+# ------------------------------------------------------------------ a symbolic-length list of equally long 1-D arrays
+class RowFamily:
+    """[row(j) for j in seq]: n_rows 1-D arrays of one common length; `row` is an SArr whose terms mention the position
+    variable `j` (a z3 Int constant)"""
+
+    def __init__(self, j, n_rows, row):
+        self.j, self.n_rows, self.row = j, n_rows, row
+
+    def at(self, jz, iz):
+        return z3.substitute(self.row.get(iz).z, (self.j, jz))
+
+
+def _free_in(t, v):
+    seen, stack = set(), [t]
+    while stack:
+        x = stack.pop()
+        if x.get_id() in seen:
+            continue
+        seen.add(x.get_id())
+        if x.eq(v):
+            return True
+        stack.extend(x.children() if not z3.is_quantifier(x) else [x.body()])
+    return False
+
+
+def _rows_element(eng, vv, i, nz, kind):
+    if not (isinstance(vv, SArr) and kind == "list"):
+        return None
+    if _free_in(vv.nz(), i):
+        raise Unsupported("a list of 1-D arrays whose lengths depend on the position")
+    return RowFamily(i, nz, vv)
+
+
+def counted_rows(eng):
+    """ghost log: [(family: RowFamily (boolean rows), CNT: z3 function (row, prefix) -> count, result: SArr)]"""
+    return eng.ghost.setdefault("count_nonzero_rows_log", [])
+
+
+def _count_rows(eng, fam):
+    used(eng, "np.count_nonzero(symbolic-length list of equally long rows, axis=1) = per-row count (ghost function CNT(row, prefix) defined by its unfolding)")
+    row = _as_bool_sarr(eng, fam.row)
+    fam = RowFamily(fam.j, fam.n_rows, row)
+    tag = fresh_name("cntrows")
+    f = z3.Function(tag, z3.IntSort(), z3.IntSort(), z3.IntSort())
+    j, i = z3.Int("j_" + tag), z3.Int("i_" + tag)
+    b = z3.If(fam.at(j, i), 1, 0)
+    eng.assume(z3.ForAll([j], f(j, 0) == 0, patterns=[f(j, 0)]))
+    eng.assume(z3.ForAll([j, i], z3.Implies(i >= 0, f(j, i + 1) == f(j, i) + b), patterns=[f(j, i + 1)]))
+    eng.assume(z3.ForAll([j, i], z3.Implies(i >= 0, z3.And(f(j, i) >= 0, f(j, i) <= i)), patterns=[f(j, i)]))
+    q = z3.Int(fresh_name("q"))
+    res = SArr(z3.Lambda([q], f(q, row.nz())), fam.n_rows, "int", name="rowcounts")
+    counted_rows(eng).append((fam, f, res))
+    return res
 
 
 # ------------------------------------------------------------------ arange over the reals
@@ -160,7 +220,85 @@ def _full(eng, args, kwargs):
     return _const_array(eng, n, fv, kwargs.get("dtype", args[2] if len(args) > 2 else None), "full")
 
 
+class Grid:
+    """(P, T, n) float array, P and T concrete, the last extent n symbolic: rows[i][j] is a z3 array Int -> elem"""
+
+    def __init__(self, P, T, n, kind, rows, dtype=None):
+        self.P, self.T, self.n, self.kind, self.rows, self.dtype = P, T, n, kind, rows, dtype
+        self.uid = next_uid()
+
+    def row(self, i, j):
+        return SArr(self.rows[i][j], self.n, self.kind, name="gridrow", dtype=self.dtype)
+
+    def __pyvc_getattr__(self, eng, name):
+        if name == "shape":
+            return (self.P, self.T, Sym(self.n, "int") if isinstance(self.n, z3.ExprRef) else self.n)
+        if name == "ndim":
+            return 3
+        if name == "dtype":
+            return self.dtype
+        raise Unsupported(f"attribute {name} of a (P, T, n) array with symbolic n")
+
+    def __pyvc_snapshot__(self, memo):
+        c = Grid(self.P, self.T, self.n, self.kind, [list(r) for r in self.rows], self.dtype)
+        c.uid = self.uid
+        return c
+
+    def __pyvc_getitem__(self, eng, idx):
+        if isinstance(idx, tuple) and len(idx) == 2 and all(isinstance(x, int) and not isinstance(x, bool) for x in idx):
+            i, j = idx
+            if not (-self.P <= i < self.P and -self.T <= j < self.T):
+                raise ProgExc(IndexError, "index out of bounds")
+            return self.row(i % self.P, j % self.T)  # (a copy: reads only)
+        raise Unsupported("this index form of a (P, T, n) array with symbolic n")
+
+    def __pyvc_setitem__(self, eng, idx, val):
+        used(eng, "a[i, j, :L] = v on a (P, T, n) array: v must have min(max(L,0), n) elements; they replace the first elements of row (i, j)")
+        if not (isinstance(idx, tuple) and len(idx) == 3 and all(isinstance(x, int) and not isinstance(x, bool) for x in idx[:2]) and isinstance(idx[2], slice)
+                and idx[2].start is None and idx[2].step is None):
+            raise Unsupported("this index form of a store into a (P, T, n) array with symbolic n")
+        i, j, sl = idx
+        if not (-self.P <= i < self.P and -self.T <= j < self.T):
+            raise ProgExc(IndexError, "index out of bounds")
+        i, j = i % self.P, j % self.T
+        nz = zint(self.n)
+        if sl.stop is None:
+            L = nz
+        else:
+            st = to_z3(sl.stop, "int")
+            st = z3.If(st < 0, z3.If(st + nz < 0, z3.IntVal(0), st + nz), st)
+            L = z3.If(st < nz, st, nz)
+        if not isinstance(val, SArr):
+            raise Unsupported("store of a non-1-D-symbolic value into a (P, T, n) array")
+        if not eng.branch(eng.sbool(val.nz() == L)):
+            if eng.branch(eng.sbool(val.nz() == 1)):
+                raise Unsupported("broadcast of a one-element array in a slice store")
+            raise ProgExc(ValueError, "could not broadcast input array into the slice")
+        q = z3.Int(fresh_name("q"))
+        old = self.rows[i][j]
+        self.rows[i][j] = z3.Lambda([q], z3.If(z3.And(q >= 0, q < L), to_z3(narr.cast(eng, val.get(q), self.kind), self.kind), z3.Select(old, q)))
+
+
+def _grid_shape(shape):
+    if isinstance(shape, PList) and shape.items is not None:
+        shape = tuple(shape.items)
+    if isinstance(shape, (tuple, list)) and len(shape) == 3 and all(isinstance(x, int) and not isinstance(x, bool) for x in shape[:2]) and isinstance(shape[2], Sym):
+        return shape
+    return None
+
+
 def _zeros(eng, args, kwargs):
+    g = _grid_shape(args[0] if args else kwargs.get("shape"))
+    if g is not None:
+        used(eng, "np.zeros((P, T, n)): zeros, P and T concrete, n symbolic")
+        P, T, n = g
+        if not eng.spec_mode:
+            if not eng.branch(eng.sbool(n.z >= 0)):
+                raise ProgExc(ValueError, "negative dimensions are not allowed")
+        dt = kwargs.get("dtype", args[1] if len(args) > 1 else None)
+        k = npmodels.kind_of_dtype(dt) if dt is not None else "real"
+        zero = z3.K(z3.IntSort(), to_z3(narr.cast(eng, 0, k), k))
+        return Grid(P, T, n.z, k, [[zero for _ in range(T)] for _ in range(P)], dt)
     n = _dim(args[0] if args else kwargs.get("shape"))
     if n is None:
         return narr.np_zeros(eng, args, kwargs)
@@ -200,6 +338,121 @@ def _concatenate(eng, args, kwargs):
         return z
 
     return SArr(npmodels.lam(body, k), tot, k, name="concat")
+
+
+# ------------------------------------------------------------------ nonzero of a concrete mask
+def _nonzero(eng, args, kwargs):
+    (m,) = args
+    if isinstance(m, NArr) and m.ndim == 1:
+        ts = [eng.truth(x) for x in m.items]
+        if all(isinstance(t, bool) for t in ts):
+            used(eng, "np.nonzero(concrete 1-D mask) = (positions of the true entries in order,)")
+            pos = [i for i, t in enumerate(ts) if t]
+            return (NArr((len(pos),), pos, "int"),)
+    return npmodels._np_nonzero(eng, args, kwargs)
+
+
+# ------------------------------------------------------------------ setdiff1d of concrete integer arrays
+def _setdiff1d(eng, args, kwargs):
+    a, b = args[0], args[1]
+    if all(isinstance(x, NArr) and x.ndim == 1 and all(isinstance(i, int) and not isinstance(i, bool) for i in x.items) for x in (a, b)):
+        used(eng, "np.setdiff1d on concrete integer arrays: evaluated by numpy itself")
+        kw = {k: v for k, v in kwargs.items()}
+        if len(args) > 2:
+            kw["assume_unique"] = args[2]
+        r = np.setdiff1d(np.array(a.items, dtype=np.int64), np.array(b.items, dtype=np.int64), **kw)
+        return NArr((len(r),), [int(i) for i in r], "int")
+    m = npmodels.lookup_model(np.setdiff1d)
+    if m is None:
+        raise Unsupported("np.setdiff1d on symbolic arrays")
+    return m(eng, args, kwargs)
+
+
+# ------------------------------------------------------------------ degrees
+def _degrees(eng, args, kwargs):
+    used(eng, "np.degrees(x) = x * 180 / pi (pi: the engine's abstract constant)")
+    pi = eng.pi_const()
+    f = lambda x: eng.binop(ast.Div(), eng.binop(ast.Mult(), x, 180), pi)
+    v = args[0]
+    if isinstance(v, NArr):
+        return narr.emap(eng, f, v, kind="real")
+    return f(v)
+
+
+# ------------------------------------------------------------------ linalg.norm with ord / keepdims
+def _norm(eng, args, kwargs):
+    kw = dict(kwargs)
+    order = kw.pop("ord", args[1] if len(args) > 1 else None)
+    keep = kw.pop("keepdims", False)
+    if len(args) > 2:
+        kw["axis"] = args[2]
+    a = args[0]
+    if not isinstance(a, NArr) and not isinstance(a, (PList, list, tuple)):
+        return narr.np_norm(eng, [a], kw)
+    a = narr._as_narr(eng, a)
+    axis = kw.get("axis")
+    vector_norm = a.ndim == 1 or isinstance(axis, int)
+    if order is not None and not (order == 2 and vector_norm):
+        raise Unsupported("np.linalg.norm: only the Euclidean vector norm (ord None, or ord=2 along one axis) is modelled")
+    if a.ndim > 1 and axis is None and order is not None:
+        raise Unsupported("np.linalg.norm: matrix norms are not modelled")
+    r = narr.np_norm(eng, [a], kw)
+    if keep:
+        used(eng, "np.linalg.norm(..., keepdims=True): the reduced axis is kept with size 1")
+        if axis is None:
+            return NArr((1,) * a.ndim, [r], "real")
+        ax = axis % a.ndim
+        shape = a.shape[:ax] + (1,) + a.shape[ax + 1:]
+        return NArr(shape, list(r.items), "real")
+    return r
+
+
+# ------------------------------------------------------------------ ceil / int of a symbolic real
+def _ceil(eng, args, kwargs):
+    v = args[0]
+    if isinstance(v, Sym):
+        used(eng, "np.ceil(x) = -floor(-x), floor = the integer-part function of SMT-LIB (to_int); returned as a float")
+        return Sym(-z3.ToReal(z3.ToInt(-to_z3(v, "real"))), "real")
+    if kind_of(v) is None:
+        raise Unsupported("np.ceil argument")
+    import math
+
+    return Fraction(math.ceil(models.frac(v)))
+
+
+_stock_int = models.BUILTIN_MODELS.get(int)
+
+
+def _int(eng, args, kwargs):
+    if len(args) == 1 and not kwargs and isinstance(args[0], Sym) and args[0].kind == "real":
+        used(eng, "int(x) of a float: truncation toward zero (to_int(x) for x >= 0, -to_int(-x) below)")
+        z = args[0].z
+        return eng.snum(z3.If(z >= 0, z3.ToInt(z), -z3.ToInt(-z)), "int")
+    return _stock_int(eng, args, kwargs)
+
+
+# ------------------------------------------------------------------ max / min of one scalar, chain.from_iterable
+def _minmax(is_min):
+    stock = models.BUILTIN_MODELS[min if is_min else max]
+
+    def model(eng, args, kwargs):
+        if len(args) == 1 and kind_of(args[0]) is not None:
+            raise ProgExc(TypeError, f"'{'int' if kind_of(args[0]) == 'int' else 'float'}' object is not iterable")  # max(5): a single scalar is taken for the iterable
+        if not args:
+            raise ProgExc(TypeError, "expected at least 1 argument, got 0")
+        return stock(eng, args, kwargs)
+
+    return model
+
+
+def _from_iterable(eng, args, kwargs):
+    used(eng, "itertools.chain.from_iterable: the entries of the inner iterables in order")
+    out = []
+    for it in models.iterate_concrete(eng, args[0]):
+        out.extend(models.iterate_concrete(eng, it))
+    from .values import Iter
+
+    return Iter(PList(out))
 
 
 # ------------------------------------------------------------------ getattr / callable on interpreted objects
@@ -246,5 +499,18 @@ def install():
     models.EXTRA_MODELS[np.full] = _full
     models.EXTRA_MODELS[np.zeros] = _zeros
     models.EXTRA_MODELS[np.concatenate] = _concatenate
+    if _rows_element not in models.EXTRA_ELEMENT_HOOKS:
+        models.EXTRA_ELEMENT_HOOKS.append(_rows_element)
+    import itertools
+
+    models.EXTRA_MODELS[max] = _minmax(False)
+    models.EXTRA_MODELS[min] = _minmax(True)
+    models.EXTRA_MODELS[itertools.chain.from_iterable] = _from_iterable
+    models.EXTRA_MODELS[np.linalg.norm] = _norm
+    models.EXTRA_MODELS[np.nonzero] = _nonzero
+    models.EXTRA_MODELS[np.ceil] = _ceil
+    models.EXTRA_MODELS[int] = _int
+    models.EXTRA_MODELS[np.degrees] = _degrees
+    models.EXTRA_MODELS[np.setdiff1d] = _setdiff1d
     models.EXTRA_MODELS[getattr] = _getattr
     models.EXTRA_MODELS[callable] = _callable
